@@ -62,7 +62,7 @@ def build_harness(profile="release"):
         hdir = os.path.join(BUILD, "hsrc", "harness")
         os.makedirs(os.path.join(hdir, "src"), exist_ok=True)
         os.makedirs(os.path.join(hdir, ".cargo"), exist_ok=True)
-        for f in ["Cargo.toml", "Cargo.lock"] + ["src/" + x for x in os.listdir(os.path.join(HARNESS, "src"))]:
+        for f in ["Cargo.toml", "Cargo.lock", "build.rs"] + ["src/" + x for x in os.listdir(os.path.join(HARNESS, "src"))]:
             text = open(os.path.join(HARNESS, f)).read().replace('"/repo/src/', '"%s/src/' % REPO)
             dst = os.path.join(hdir, f)
             if not os.path.exists(dst) or open(dst).read() != text:
